@@ -12,7 +12,7 @@ import numpy as np
 from ..core import EventLog, Result, SimFault, SimBudget, HarnessError, choice, weighted
 from ..families import (sample_config, make_data, make_affinity, build_model, FAMILIES, SPARSE_FAMILIES, config_signature)
 from ..seams import World, ModelHarness
-from .common import sample_sched, exc_site, is_harness_frame, quiet
+from .common import sample_sched, exc_site, is_harness_frame, quiet, sample_prefix, second_dataset, run_generic_op
 
 PROPERTY = "C07"
 RULE = ("one run = one path() call on one of the 5 sparse families x GEMINI x alpha x alpha_multiplier (incl. <= 1) x min_features "
@@ -59,7 +59,10 @@ def generate(rng):
     faults = {"sched": sample_sched(rng), "kind": fault, "opt": "teleport" if fault == "teleport" else "real",
               "teleport_sigma": choice(rng, [0.05, 0.5]), "teleport_seed": rng.randrange(2 ** 31),
               "nan_at": rng.randint(1, 60)}
-    return {"property": PROPERTY, "scenario": "path", "config": cfg, "ops": [{"op": "path", "args": args}], "faults": faults}
+    cfg["n2"] = cfg["n"] if rng.random() < 0.5 else rng.randint(4, 14)
+    prefix = [] if out_of_range else sample_prefix(rng, cfg, p_any=0.3, max_len=3, allow_mutate=False)
+    # hyper-parameter changes of the prefix must keep the path in-domain (alpha > 0 is kept by sample_param_change)
+    return {"property": PROPERTY, "scenario": "path", "config": cfg, "ops": prefix + [{"op": "path", "args": args}], "faults": faults}
 
 
 def snapshot_stats(weights, mlp):
@@ -95,8 +98,8 @@ class PathModel:
         return init, [g[-1] for g in groups], aborted
 
 
-def run_path(cfg, args, faults, log, res, world, record_events=True):
-    """Build a fresh estimator, run path(), return everything the oracle needs."""
+def run_path(cfg, args, faults, log, res, world, prefix=(), alpha_override=None):
+    """Build a fresh estimator, live through the prefix of the history, run path(), return everything the oracle needs."""
     X = make_data(cfg)
     A = make_affinity(cfg, X)
     model = build_model(cfg, log)
@@ -108,9 +111,24 @@ def run_path(cfg, args, faults, log, res, world, record_events=True):
     h.wrap_batchify()
     world.teleport_rs = np.random.RandomState(faults.get("teleport_seed", 0))
     pm = PathModel(mlp)
+    cur_cfg = copy.deepcopy(cfg)
+    if prefix:
+        world.val_hooks = []
+        saved = world.gemini_fault
+        world.gemini_fault = None
+        pool = [(X, A), second_dataset(cfg)]
+        with quiet():
+            for op in prefix:
+                run_generic_op(op, model, world, pool, cur_cfg, res, log)
+        world.gemini_fault = saved
     world.val_hooks = [pm.on_val]
     world.n_val = 0
     world.n_eval = 0
+    # "the alphas start at the model's alpha": what the object holds when path() is called (an interrupted earlier path may
+    # legitimately have left it changed)
+    if alpha_override is not None:
+        model.set_params(alpha=alpha_override)       # twin execution: the documented default passed explicitly
+    cur_cfg["params"]["alpha"] = model.get_params()["alpha"]
     out, exc = None, None
     with quiet() as q:
         try:
@@ -122,7 +140,7 @@ def run_path(cfg, args, faults, log, res, world, record_events=True):
                 raise
             exc = e
         msgs = q.messages()
-    return dict(model=model, X=X, A=A, out=out, exc=exc, msgs=msgs, pm=pm, mlp=mlp)
+    return dict(model=model, X=X, A=A, out=out, exc=exc, msgs=msgs, pm=pm, mlp=mlp, cur_cfg=cur_cfg)
 
 
 def same_arrays(a, b):
@@ -138,7 +156,8 @@ def execute(record):
     log = EventLog()
     cfg = record["config"]
     faults = record.get("faults", {})
-    args = dict(record["ops"][0]["args"])
+    args = dict(record["ops"][-1]["args"])
+    prefix = record["ops"][:-1]
     import random
     rng = random.Random(record.get("run_seed", 0) ^ 0xC07)
     V = res.violate
@@ -158,7 +177,7 @@ def execute(record):
         with world:
             log.emit("OP", op="path", phase="begin")
             try:
-                r = run_path(cfg, args, faults, log, res, world)
+                r = run_path(cfg, args, faults, log, res, world, prefix)
             except SimBudget as e:
                 V("C07:budget", {"what": str(e), "alpha": user_alpha, "args": args})
                 r = None
@@ -173,7 +192,10 @@ def execute(record):
                 cls = f"C07:raised:{type(e).__name__}@{site}" + (":dynamic_empty_selection" if empty else "")
                 V(cls, {"msg": str(e)[:200], "args": args})
             elif r is not None:
-                judge(res, cfg, args, faults, r, user_alpha, d, dyn, precomputed)
+                cc = r["cur_cfg"]          # hyper-parameters after the prefix (set_params may have changed alpha, dynamic...)
+                user_alpha = cc["params"]["alpha"]
+                dyn = bool(cc["params"].get("dynamic", False))
+                judge(res, cc, args, faults, r, user_alpha, d, dyn, precomputed)
                 # ---- out-of-range arguments: twin execution with the documented default passed explicitly
                 twin_args, twin_cfg, replaced = dict(args), copy.deepcopy(cfg), []
                 if args["alpha_multiplier"] <= 1:
@@ -182,18 +204,18 @@ def execute(record):
                     twin_args["keep_threshold"] = DEFAULTS["keep_threshold"]; replaced.append("keep_threshold")
                 if args["min_features"] <= 0:
                     twin_args["min_features"] = DEFAULTS["min_features"]; replaced.append("min_features")
+                alpha_override = None
                 if user_alpha == 0:
-                    twin_cfg["params"]["alpha"] = DEFAULT_ALPHA; replaced.append("alpha")
+                    alpha_override = DEFAULT_ALPHA; replaced.append("alpha")
                 if replaced:
                     keyword = {"alpha_multiplier": "multiplier", "keep_threshold": "threshold", "min_features": "min_features", "alpha": "alpha"}
                     low = [m.lower() for m in r["msgs"]]
                     for name in replaced:
                         if not any(keyword[name] in m for m in low):
                             V("C07:no_warning:" + name, {"args": args, "warnings": r["msgs"][:4]})
-                    saved = world.gemini_fault
-                    world.gemini_fault = None
+                    saved = world.gemini_fault      # the twin lives through the same faults: both executions run one program
                     try:
-                        t = run_path(twin_cfg, twin_args, faults, log, res, world)
+                        t = run_path(twin_cfg, twin_args, faults, log, res, world, prefix, alpha_override)
                     except SimBudget as e:
                         t = None
                         res.probe("twin_budget_exhausted")
